@@ -46,6 +46,51 @@ template<class V> auto address_at(V&& v, long const* idx) {
 	else { return address_at(v[idx[0]], idx + 1); }
 }
 
+// the same elements through the other access paths of the view interface: iterators of the leading dimension stepped forwards and backwards,
+// front()/back(), it -= n, end() - n, and the elements() range in both directions (a projection view carries its own pointer type)
+template<class PV, class F>
+void check_traversals(PV&& pv, Model const& m, F&& expect, char const* what) {
+	constexpr int D = vp::rank_of<PV>;
+	using E = std::remove_cv_t<typename std::decay_t<PV>::element_type>;
+	auto same = [](E const& got, E const& want) { return std::memcmp(&got, &want, sizeof got) == 0 || got == want; };
+	long const n0 = m.d[0].size;
+	long firsts[D]; for(int k = 0; k < D; ++k) { firsts[k] = m.d[static_cast<std::size_t>(k)].first; }
+	auto head_of = [&](auto&& row_or_elem) -> E {  // first element of the sub-view an iterator of the leading dimension designates
+		if constexpr(D == 1) { return static_cast<E>(row_or_elem); } else { return value_at(row_or_elem, firsts + 1); }
+	};
+	auto want_head = [&](long i) { long o[D] = {}; o[0] = i; return static_cast<E>(expect(o)); };
+	// leading dimension, forwards and backwards
+	{ long i = 0; for(auto it = pv.begin(); it != pv.end(); ++it, ++i) { VP_CHECK(same(head_of(*it), want_head(i)), "proj/iter_forward", what << ": *(begin() stepped " << i << " times forward) is not the element at leading ordinal " << i); }
+	  VP_CHECK(i == n0, "proj/iter_count", what << ": begin()..end() visits " << i << " positions, leading extent " << n0); }
+	{ long i = n0; for(auto it = pv.end(); it != pv.begin();) { --it; --i; VP_CHECK(same(head_of(*it), want_head(i)), "proj/iter_backward", what << ": *(end() stepped back to ordinal " << i << ") is not the element at that ordinal"); } }
+	VP_CHECK(same(head_of(pv.front()), want_head(0)), "proj/front", what << ": front() is not the element at leading ordinal 0");
+	VP_CHECK(same(head_of(pv.back()), want_head(n0 - 1)), "proj/back", what << ": back() is not the element at the last leading ordinal");
+	for(long j = 1; j <= std::min<long>(n0, 3); ++j) {
+		auto it = pv.end(); it -= j;
+		VP_CHECK(same(head_of(*it), want_head(n0 - j)), "proj/iter_minus_assign", what << ": *(end() -= " << j << ") is not the element at leading ordinal " << (n0 - j));
+		VP_CHECK(same(head_of(*(pv.end() - j)), want_head(n0 - j)), "proj/iter_minus", what << ": *(end() - " << j << ") is not the element at leading ordinal " << (n0 - j));
+		auto jt = pv.begin(); jt += (n0 - 1); jt -= (j - 1);
+		VP_CHECK(same(head_of(*jt), want_head(n0 - j)), "proj/iter_plus_minus", what << ": *(begin() + " << (n0 - 1) << " - " << (j - 1) << ") is not the element at leading ordinal " << (n0 - j));
+	}
+	// rows: the same for every sub-view of the leading dimension
+	if constexpr(D >= 2) {
+		Model ms = m; ms.d.erase(ms.d.begin());
+		for(long i = 0; i < n0; ++i) {
+			auto&& row = pv[firsts[0] + i];
+			check_traversals(row, ms, [&](long const* o) { long oo[D]; oo[0] = i; for(int k = 1; k < D; ++k) { oo[k] = o[k - 1]; } return expect(oo); }, what);
+		}
+	}
+	// elements(): canonical order forwards, reverse canonical order backwards
+	{
+		std::vector<E> seq; { long o[D] = {}; do { seq.push_back(static_cast<E>(expect(o))); } while(vp::next_ord(m, o)); }
+		auto&& er = pv.elements();
+		std::size_t k = 0;
+		for(auto it = er.begin(); it != er.end(); ++it, ++k) { VP_CHECK(k < seq.size() && same(static_cast<E>(*it), seq[k]), "proj/elements_forward", what << ": elements() position " << k << " is not the canonical element"); }
+		VP_CHECK(k == seq.size(), "proj/elements_count", what << ": elements() visits " << k << " elements, the view has " << seq.size());
+		for(auto it = er.end(); it != er.begin();) { --it; --k; VP_CHECK(same(static_cast<E>(*it), seq[k]), "proj/elements_backward", what << ": elements() stepped back to position " << k << " is not the canonical element"); }
+	}
+}
+
 // check a projected view `pv` of rank D against `expect(ordinals) -> value`; extents must be those of the model
 template<class PV, class F>
 void check_projection(PV&& pv, Model const& m, F&& expect, char const* what) {
@@ -61,6 +106,7 @@ void check_projection(PV&& pv, Model const& m, F&& expect, char const* what) {
 		auto want = expect(ord);
 		VP_CHECK(std::memcmp(&got, &want, sizeof got) == 0 || got == want, "proj/value", what << ": element at ordinal (" << ord[0] << (D > 1 ? ",.." : "") << ") differs from f(source element)");
 	} while(vp::next_ord(m, ord));
+	check_traversals(pv, m, expect, what);
 }
 
 struct Fin {
